@@ -50,6 +50,22 @@ fn conversions(d: &mut Drv) {
     c!("Vec3", "Vec4", "point", 3, 4, Vec4::new_point(a[0], a[1], a[2])); c!("Vec3", "Vec4", "direction", 3, 4, Vec4::new_direction(a[0], a[1], a[2]));
     c!("Vec2", "Vec3", "point", 2, 3, Vec3::from_point_2d(v2)); c!("Vec2", "Vec3", "direction", 2, 3, Vec3::from_direction_2d(v2));
     c!("Vec2", "Vec3", "point", 2, 3, Vec3::new_point_2d(a[0], a[1])); c!("Vec2", "Vec3", "direction", 2, 3, Vec3::new_direction_2d(a[0], a[1]));
+    // interoperability types (feature mint): same elements under the same names; the quaternion's (s, v) is (w, xyz)
+    {
+        use vek::mint as mt;
+        c!("Vec2", "mint::Vector2", "keep", 2, 2, { let m: mt::Vector2<Tm> = v2.into(); vec![m.x, m.y] });
+        c!("Vec2", "mint::Point2", "keep", 2, 2, { let m: mt::Point2<Tm> = v2.into(); vec![m.x, m.y] });
+        c!("mint::Vector2", "Vec2", "keep", 2, 2, Vec2::from(mt::Vector2 { x: a[0], y: a[1] }));
+        c!("mint::Point2", "Vec2", "keep", 2, 2, Vec2::from(mt::Point2 { x: a[0], y: a[1] }));
+        c!("Vec3", "mint::Vector3", "keep", 3, 3, { let m: mt::Vector3<Tm> = v3.into(); vec![m.x, m.y, m.z] });
+        c!("Vec3", "mint::Point3", "keep", 3, 3, { let m: mt::Point3<Tm> = v3.into(); vec![m.x, m.y, m.z] });
+        c!("mint::Vector3", "Vec3", "keep", 3, 3, Vec3::from(mt::Vector3 { x: a[0], y: a[1], z: a[2] }));
+        c!("mint::Point3", "Vec3", "keep", 3, 3, Vec3::from(mt::Point3 { x: a[0], y: a[1], z: a[2] }));
+        c!("Vec4", "mint::Vector4", "keep", 4, 4, { let m: mt::Vector4<Tm> = v4.into(); vec![m.x, m.y, m.z, m.w] });
+        c!("mint::Vector4", "Vec4", "keep", 4, 4, Vec4::from(mt::Vector4 { x: a[0], y: a[1], z: a[2], w: a[3] }));
+        c!("Quaternion", "mint::Quaternion", "keep", 4, 4, { let m: mt::Quaternion<Tm> = Quaternion::from_xyzw(a[0], a[1], a[2], a[3]).into(); vec![m.v.x, m.v.y, m.v.z, m.s] });
+        c!("mint::Quaternion", "Quaternion", "keep", 4, 4, { let q = Quaternion::from(mt::Quaternion { s: a[3], v: mt::Vector3 { x: a[0], y: a[1], z: a[2] } }); vec![q.x, q.y, q.z, q.w] });
+    }
     // colours: opaque / transparent alpha
     c!("Rgb", "Rgba", "opaque", 3, 4, Rgba::from(Rgb::new(a[0], a[1], a[2]))); c!("Rgb", "Rgba", "opaque", 3, 4, Rgba::from_opaque(Rgb::new(a[0], a[1], a[2])));
     c!("Rgb", "Rgba", "opaque", 3, 4, Rgba::new_opaque(a[0], a[1], a[2])); c!("Rgb", "Rgba", "transparent", 3, 4, Rgba::from_transparent(Rgb::new(a[0], a[1], a[2])));
@@ -193,5 +209,6 @@ pub fn drive_vconv(args: &[String]) {
     swizzles(&mut d);
     shuffles(&mut d, full);
     color_values(&mut d);
+    crate::pixel::pixels(&mut d);
     d.finish(arg(args, "--summary"));
 }
